@@ -925,6 +925,14 @@ func runC01(rc *Recorder, dir string, rng *rand.Rand, steps int) error {
 		}
 	}
 	w.closeReader()
+	if len(rc.violations) == nv0 {
+		// every TXID written so far must restore identically with and without the higher levels
+		ctxS, cancelS := context.WithTimeout(ctxb, 60*time.Second)
+		if err := w.ldb.SyncAndWait(ctxS); err == nil {
+			w.everyTXIDOracle(rc, false)
+		}
+		cancelS()
+	}
 	w.trace = append(w.trace, "CLOSE")
 	w.injRef = nil
 	if w.useInject && rng.Intn(2) == 0 {
@@ -1051,7 +1059,9 @@ func main() {
 		case "script":
 			err = runScript(rc, dir, rng, *script, *scriptCfg)
 		case "c02":
-			if i%3 == 2 {
+			if i%6 == 5 {
+				err = runC02ShrinkSnapshot(rc, dir, rng)
+			} else if i%3 == 2 {
 				err = runC02Preexisting(rc, dir, rng)
 			} else if i%3 == 1 || !*concurrent {
 				err = runC02Injected(rc, dir, rng, *steps)
